@@ -324,6 +324,7 @@ func (obj JsonWebEncryption) Decrypt(decryptionKey interface{}) ([]byte, error) 
 	authData := obj.computeAuthData()
 
 	var plaintext []byte
+	decrypted := false
 	for _, recipient := range obj.recipients {
 		recipientHeaders := obj.mergedHeaders(&recipient)
 
@@ -332,12 +333,15 @@ func (obj JsonWebEncryption) Decrypt(decryptionKey interface{}) ([]byte, error) 
 			// Found a valid CEK -- let's try to decrypt.
 			plaintext, err = cipher.decrypt(cek, authData, parts)
 			if err == nil {
+				decrypted = true
 				break
 			}
 		}
 	}
 
-	if plaintext == nil {
+	// An empty plaintext comes back from the AEAD as a nil slice, so success is
+	// decided by the error of the decryption, not by the plaintext being non-nil.
+	if !decrypted {
 		return nil, ErrCryptoFailure
 	}
 
